@@ -127,6 +127,9 @@ def check_c15(seed, tier):
                 try:
                     if op == "add_auto":
                         it = A.item(rng, step)
+                        if before and rng.random() < 0.5:
+                            import copy as _copy
+                            it = _copy.deepcopy(rng.choice(before)[1])      # an equal twin of an item already there: another object, another channel
                         A.add(b, it, None)
                         after = A.pairs(b)
                         if len(after) != len(before) + 1 or after[-1][1] is not it or any(int(after[-1][0]) == int(c) for c, _ in before):
@@ -159,6 +162,9 @@ def check_c15(seed, tier):
                                 fails.append(_f("C15", "C15.frame", name, "a refused add changed the block", case, seed))
                     elif op == "remove" and before:
                         pos = rng.randrange(len(before))
+                        later_twins = [i for i, (_, p) in enumerate(before) if any(q == p for _, q in before[:i])] if name == "PlatformsCalibration" else []
+                        if later_twins and rng.random() < 0.7:
+                            pos = rng.choice(later_twins)       # the second of two equal items: position and value disagree on which pair it is
                         if name == "EMG":
                             lab = before[pos][1].label
                             b.removeSignal(lab)
@@ -281,6 +287,26 @@ def check_c15(seed, tier):
                 fails.append(_f("C15", "C15.encode", name, f"encode/decode after the history raised {e!r}", dict(block=name, seq=si, hist=hist), seed))
             if len(fails) > 20:
                 break
+    # directed: two equal platforms (same label and geometry) on different channels -- removal by position removes that position
+    try:
+        import copy as _copy
+        from basictdf.tdfForcePlatformsCalibration import ForcePlatformsCalibrationDataBlock
+        rng = random.Random(f"{seed}:c15:twins")
+        for which in (0, 1, 2):
+            ncase += 1
+            b = ForcePlatformsCalibrationDataBlock()
+            p0, p1 = gen.plat_info(rng), gen.plat_info(rng)
+            items = [p0, p1, _copy.deepcopy(p0)]
+            for it, ch in zip(items, (4, 7, 9)):
+                b.add_platform(it, ch)
+            b.remove_platform(which)
+            want = [(c, id(p)) for k, (c, p) in enumerate(zip((4, 7, 9), items)) if k != which]
+            got = [(int(c), id(p)) for c, p in zip(b._platformMap, b._platforms)]
+            if got != want:
+                fails.append(_f("C15", "C15.remove", "PlatformsCalibration", f"with two equal platforms on channels 4 and 9, remove_platform({which}) left channels {[c for c, _ in got]} "
+                                f"(the item at each position keeps its channel: expected {[c for c, _ in want]} with the same objects)", dict(block="PlatformsCalibration", directed="equal twins", index=which), seed))
+    except Exception as e:
+        fails.append(_f("C15", "C15.exception", "PlatformsCalibration", f"removal by position with equal twins raised {e!r}", dict(block="PlatformsCalibration", directed="equal twins"), seed))
     return dict(what="model-based histories on the three channel-mapped blocks (real code)", cases=ncase, label="bounded", bound=f"{nseq} random histories of <= 8 operations per block type"), fails
 
 
@@ -427,6 +453,12 @@ def check_c14(seed, tier):
             if name == "Calibration" and int(b.format) == 2:
                 b = gen.calibration(random.Random(f"{seed}:c14b:{i}"), bts=True)
                 b.cam_data = [gen.bts_cam(rng, 70) for _ in b.cam_data]
+            if name == "Data2D" and i % 3 == 1:
+                # a NaN coordinate (not a gap: an empty cell is None) -- the block still equals itself and its decode
+                cells = [(f, c) for f in range(b.nFrames) for c in range(b.nCams) if b.data[f, c] is not None]
+                if cells:
+                    f, c = rng.choice(cells)
+                    b.data[f, c][rng.randrange(len(b.data[f, c])), rng.randrange(2)] = np.nan
             case = dict(block=name, index=i)
             n += 1
 
